@@ -26,6 +26,10 @@ Next == /\ l <= Len(Trace)
         /\ LET e == Trace[l] IN
            CASE e.ev = "doc" -> JudgeDoc(e)
              [] e.ev = "include" -> JudgeInclude(e)
+             [] e.ev = "dupname" ->
+                  IF e.ret # "ok" THEN Rej("C03", "marshal-panicked")
+                  ELSE /\ IF DupOK(e) THEN TRUE ELSE Rej("C04", "NONE")
+                       /\ IF e.same THEN TRUE ELSE Rej("C11", "NONE")
              [] OTHER -> Rej("C03", "unknown-event")
 Spec == Init /\ [][Next]_l
 AllConsumed == TLCGet("stats").diameter - 1 = Len(Trace)
